@@ -139,12 +139,17 @@ def chain_of(t):
 def describe(t):
     try:
         if t[0] == 1:
-            d = {"stack": "noise", "key_types": [KT.get(t[1]), KT.get(t[2])], "initiator": side(t[3:8]), "responder": side(t[8:13]),
+            d = {"stack": "noise", "key_types": [KT.get(t[1] % 10), KT.get(t[2] % 10)], "initiator": side(t[3:8]), "responder": side(t[8:13]),
                  "edit": {"kind": EK.get(t[13]), "message": t[14], "a": t[15], "b": t[16], "byte": t[17]}}
+            for who, x in (("initiator", t[1] // 10), ("responder", t[2] // 10)):
+                if x:
+                    d[who]["expects_identity_of_key_type"] = {5: "(a string that is not a well-formed peer ID)"}.get(x, KT.get(x - 1))
             if t[18]:
-                d["forging_endpoint"] = {"is_initiator": t[19], "claims": {4: "junk", 5: "empty"}.get(t[20], NAME.get(t[20]) if t[20] < 10 else "%s's key, non-canonical serialization %d" % (NAME.get(t[20] % 10), t[20] // 10)),
+                d["forging_endpoint"] = {"is_initiator": t[19], "claims": {4: "junk", 5: "empty", 6: "nothing: the whole payload is zero-length", 7: "nothing: the payload is not a protobuf message"}.get(t[20], NAME.get(t[20]) if t[20] < 10 else "%s's key, non-canonical serialization %d" % (NAME.get(t[20] % 10), t[20] // 10)),
                                          "signed_by": {4: "junk", 5: "empty"}.get(t[21], NAME.get(t[21])),
                                          "signed_message": {0: "prefix+static", 1: "prefix+another static", 2: "static only"}.get(t[22])}
+                if t[18] == 2:
+                    d["forging_endpoint"]["also_sends_a_payload_in_message_1"] = 1
             if t[23]:
                 d["panic"] = {"in_initiator": t[24], "at": {0: "Write #%d on the insecure conn" % t[26], 1: "Read #%d on the insecure conn" % t[26], 2: "early-data handler Send", 3: "early-data handler Received"}.get(t[25])}
             o = t[28:]
@@ -274,7 +279,9 @@ if __name__ == "__main__":
              "component boundary, cut by 1/16/17 bytes, length prefix enlarged, extended by 1/16 bytes, dropped, duplicated, spliced from a second concurrent session) of every message "
              "x 4x4 expected-peer settings x 5 prologue pairings; (C) every byte position of every handshake message (incl. the length prefix) flipped (sampled for the non-Ed25519 types in quick); "
              "(D) a cooperating malicious endpoint (flynn/noise driven directly) presenting 11 claimed identity keys (A/B/E canonical, junk, empty, and valid NON-canonical protobuf serializations: unknown field appended, fields reordered, non-minimal varint) x 7 signatures (own key over prefix+static / another static / static only, "
-             "recorded signatures of A and B, junk, empty) x 4 settings x 2 prologues x both roles; (E) faults: a panic at the k-th Write / Read on the insecure connection and in the early-data handler's Send / Received, "
+             "recorded signatures of A and B, junk, empty) x 4 settings x 2 prologues x both roles; the same endpoint completing Noise XX correctly while OMITTING the libp2p payload: a zero-length payload / bytes that are not a protobuf message in its message 2 (towards an initiator) or message 3 (towards a responder), "
+             "and, as initiator, a valid payload already in message 1 (where honest endpoints send none) followed by a good / zero-length / field-less / foreign-key / junk payload in message 3; (F) always, for ALL 4x4 key-type pairs and both roles: the side names an identity E of each of the four key types "
+             "(ID embeds the key: Ed25519, Secp256k1; ID is the hash of the key: ECDSA, RSA) or a string that is not a peer ID while A/B (of each key type) answers, plain Transport and SessionTransport, with the controls 'names the answering peer' and 'check disabled'; (E) faults: a panic at the k-th Write / Read on the insecure connection and in the early-data handler's Send / Received, "
              "in either endpoint x 4 expected-peer settings x 2 prologues (a panic must be an error outcome, never a session whose peer was not verified). Observed per endpoint: error class or RemotePeer()/RemotePublicKey(). "
              "TLS: (2) the VerifyPeerCertificate callback of ConfigForPeer(exp) and PubKeyFromCertChain on certificates built with 29 presentations (extension public key / signature / certificate key replaced, "
              "victim's extension replayed, stolen certificate, extension absent / twice / not ASN.1 / critical, other extensions, chain length 0/2, signed by another key and altered after signing — the corpus of the repaired self-signature defect, now rejected —, expired) x 4 expectations x identities; "
